@@ -45,8 +45,8 @@ class SystemClockLoopTest {
 };
 typedef SystemClockLoopTest_loop LF;
 
-enum { A_VALID0, A_VALID3, A_NOTREADY, A_INVALID, A_N };
-static const char* AN[] = {"ready+valid", "ready+valid(+3s)", "not-ready", "ready+invalid"};
+enum { A_VALID0, A_VALID3, A_NOTREADY, A_INVALID, A_N, A_BLIND = A_N };   // A_BLIND: loop() is called but nobody reads the clock (no-reference wiring only)
+static const char* AN[] = {"ready+valid", "ready+valid(+3s)", "not-ready", "ready+invalid", "loop() only, clock not read"};
 struct Ev { uint32_t delta; int answer; };
 struct Cfg { uint16_t sync, init, timeout; int wiring; unsigned long start; };  // wiring 0: ref!=backup 1: ref==backup 2: no backup 3: no ref
 static const char* WN[] = {"ref!=backup", "ref==backup", "no-backup", "no-reference"};
@@ -62,6 +62,12 @@ struct World {
     Clock* b = c.wiring == 1 ? (Clock*)&ref : c.wiring == 0 || c.wiring == 3 ? (Clock*)&backup : nullptr;
     clk = new TLoop(r, b, c.sync, c.init, c.timeout);
     modelPeriod = c.init; lastPoll = now;
+    if (c.wiring == 3) {
+      // without a reference clock nothing ever sets the time: the application does (setNow), and loop() must keep it
+      acetime_t v = true_time(now);
+      clk->setNow(v);
+      init = true; T = v; m0 = now; lastSync = v;
+    }
   }
   ~World() { delete clk; }
   World(const World&) = delete;
@@ -70,6 +76,13 @@ struct World {
     now += e.delta; g_ms = now;
     if (now - lastPoll > 64536) unjudged = true;   // time keeping across such a gap is outside C13/C14
     lastPoll = now;
+    if (e.answer == A_BLIND) {
+      // "with no reference clock it only keeps time": loop() alone must keep the clock alive, also when nobody calls getNow()
+      // for longer than the 16-bit millisecond window; the next observed step compares the reading with the model
+      ref.ready = false;
+      clk->loop();
+      return (ref.sends || ref.reads) ? "bad:request-without-reference" : "ok";
+    }
     ref.ready = (e.answer != A_NOTREADY);
     ref.value = e.answer == A_INVALID ? Clock::kInvalidSeconds : true_time(now) + (e.answer == A_VALID3 ? 3 : 0);
     uint8_t st0 = LF::status(*clk);
@@ -172,6 +185,7 @@ int main(int argc, char** argv) {
     World::maxDelta = deltas.back();
     std::vector<Ev> alpha;
     for (uint32_t d : deltas) for (int an = 0; an < A_N; an++) { if (wiring == 3 && an > 0) continue; alpha.push_back({d, an}); }
+    if (wiring == 3) for (uint32_t d : deltas) if (d >= 1000 && d <= 64536) alpha.push_back({d, A_BLIND});
     auto expected = [](const Ev&) { return std::string("ok"); };
     auto hist = [&](const std::vector<uint16_t>& h, uint16_t op) { std::string s; for (uint16_t x : h) s += fmt("+%ums %s; ", alpha[x].delta, AN[alpha[x].answer]); return s + fmt("+%ums %s", alpha[op].delta, AN[alpha[op].answer]); };
     auto mismatch = [&](const std::vector<uint16_t>& h, uint16_t op, const std::string& got, const std::string&) {
